@@ -124,6 +124,9 @@ class Batch(Part):
         rec = jobrec.Rec(dim=dim, m=m, criteria=criteria, constrained=rng.random() < 0.5, script=script,
                          mode="serial" if workers == 1 else "parallel", workers=workers)
         vectors = [[round(rng.uniform(-5, 5), 6) for _ in range(dim)] for _ in range(n)]
+        for v in vectors:
+            if rng.random() < 0.25:
+                v[:] = [rng.randint(-5, 5) for _ in v]          # designs given with Python ints (grids, hand-written start points)
         precs = [rng.choice([7, 7, 7, 3, 5, 8, 0, 1]) for _ in range(n)]
         rec.new_batch(vectors, pre=case["pre"], precisions=precs)
         exc = jobrec.evaluate_batch(rec, workers=workers, rounds=case["rounds"])
